@@ -93,14 +93,14 @@ func methodCode(m base.Method) int {
 }
 
 // abstract events (encoding shared with coq/clientsm/Model.v, see dec_event there)
-//   1 status sess auth loc keymsg  dkind [ct sdp base n {ctl back pm0}]  tkind [tcp secure deliv sp sp1 sp2 il il1 il2 src]
+//   1 status sess auth loc keymsg  dkind [ct sdp base nobase n {ctl back pm0}]  tkind [bad tcp secure deliv sp sp1 sp2 il il1 il2 src dest ports]
 //   2 = OPTIONS request from the server, 3 = other request, 4 = interleaved frame, 5 = close, 6 = stale response
 type absMedia struct{ Ctl, Back, PM0 int }
 type absDesc struct {
-	CT, SDP, Base int
-	Medias        []absMedia
+	CT, SDP, Base, NoBase int
+	Medias                []absMedia
 }
-type absTh struct{ Bad, TCP, Secure, Deliv, SP, SP1, SP2, IL, IL1, IL2, Src int }
+type absTh struct{ Bad, TCP, Secure, Deliv, SP, SP1, SP2, IL, IL1, IL2, Src, Dest, Ports int }
 type absResp struct {
 	Status, Sess, Auth, Loc, KeyMsg int
 	Desc                            *absDesc
@@ -116,7 +116,7 @@ type reqRecord struct {
 func (r *absResp) flat() []int {
 	out := []int{1, r.Status, r.Sess, r.Auth, r.Loc, r.KeyMsg}
 	if r.Desc != nil {
-		out = append(out, 1, r.Desc.CT, r.Desc.SDP, r.Desc.Base, len(r.Desc.Medias))
+		out = append(out, 1, r.Desc.CT, r.Desc.SDP, r.Desc.Base, r.Desc.NoBase, len(r.Desc.Medias))
 		for _, m := range r.Desc.Medias {
 			out = append(out, m.Ctl, m.Back, m.PM0)
 		}
@@ -125,7 +125,7 @@ func (r *absResp) flat() []int {
 	}
 	if r.Th != nil {
 		t := r.Th
-		out = append(out, 1, t.Bad, t.TCP, t.Secure, t.Deliv, t.SP, t.SP1, t.SP2, t.IL, t.IL1, t.IL2, t.Src)
+		out = append(out, 1, t.Bad, t.TCP, t.Secure, t.Deliv, t.SP, t.SP1, t.SP2, t.IL, t.IL1, t.IL2, t.Src, t.Dest, t.Ports)
 	} else {
 		out = append(out, 0)
 	}
@@ -191,6 +191,8 @@ type server struct {
 	callReq int  // requests since the current API call started
 	storm   bool // more than stormLimit requests inside one API call: stop mutating, answer 404
 	nredir  int
+	ndesc   int
+	onRec   func(reqRecord)
 	lastAct time.Time
 	lastIL  [2]int // interleaved ids of the previous accepted TCP setup
 	hasIL   bool
@@ -199,14 +201,14 @@ type server struct {
 	closed  bool
 }
 
-const stormLimit = 120
+const stormLimit = 60
 
-func newServer(cs *Case) (*server, error) {
+func newServer(cs *Case, onRec func(reqRecord)) (*server, error) {
 	ln, err := net.Listen("tcp4", "127.0.0.1:0")
 	if err != nil {
 		return nil, err
 	}
-	s := &server{ln: ln, cs: cs, done: make(chan struct{}), lastAct: time.Now()}
+	s := &server{ln: ln, cs: cs, done: make(chan struct{}), lastAct: time.Now(), onRec: onRec}
 	s.port = ln.Addr().(*net.TCPAddr).Port
 	for i := range s.udp {
 		u, err2 := net.ListenUDP("udp4", &net.UDPAddr{IP: net.IPv4(127, 0, 0, 1)})
@@ -335,6 +337,7 @@ func (s *server) respond(req *base.Request, act Act) outcome {
 		sessCtl := ""
 		back := -1
 		pm0 := false
+		longCtl := false
 		d := &absDesc{Medias: make([]absMedia, nmedia)}
 		ab.Desc = d
 		rr.add("Content-Type", "application/sdp")
@@ -375,7 +378,8 @@ func (s *server) respond(req *base.Request, act Act) outcome {
 			case 6:
 				ctl[mi] = "/abs/track"
 			case 7:
-				ctl[mi] = "trackID=" + strings.Repeat("9", 3000)
+				ctl[mi] = "trackID=" + strings.Repeat("9", 3000) // the request URL exceeds what this server's parser reads
+				longCtl = true
 			default:
 				ctl[mi] = "track ID=\t1" // spaces: url.Parse refuses control characters
 				d.Medias[mi].Ctl = 1
@@ -384,6 +388,7 @@ func (s *server) respond(req *base.Request, act Act) outcome {
 			switch act.A {
 			case 0:
 				rr.del("Content-Base")
+				d.NoBase = 1
 			case 1:
 				rr.set("Content-Base", "rtsp://[::1/") // unparsable
 				d.Base = 1
@@ -416,6 +421,9 @@ func (s *server) respond(req *base.Request, act Act) outcome {
 			d.Medias[0].PM0 = 1
 		}
 		rr.body = s.sdp(ctl, sessCtl, back, pm0, nmedia)
+		if longCtl {
+			return s.finish(rr, ab, act, method, false)
+		}
 		if act.Kind == MSDP {
 			switch act.A {
 			case 0:
@@ -696,8 +704,8 @@ func (s *server) finish(rr *rawResp, ab *absResp, act Act, method int, covered b
 		o.delayMs = act.A
 		o.chunks = [][]byte{rr.bytes()}
 		o.events = resp
-		if act.A >= readTimeoutMs-150 {
-			o.covered = act.A >= readTimeoutMs+150 // near the deadline either outcome is legitimate
+		if act.A >= readTimeoutMs-250 {
+			o.covered = act.A >= readTimeoutMs+250 // near the deadline either outcome is legitimate
 			if o.covered {
 				o.events = nil
 			}
@@ -803,8 +811,28 @@ func (s *server) serve(nc net.Conn) {
 		if idx < len(s.cs.Acts) {
 			act = s.cs.Acts[idx]
 		}
-		if s.cs.Forever != 0 && method == mDescribe {
-			act = Act{Kind: MStatus, A: 301, B: 0}
+		switch s.cs.Forever {
+		case 1: // every DESCRIBE is answered 301
+			if method == mDescribe {
+				act = Act{Kind: MStatus, A: 301, B: 0}
+			}
+		case 2: // DESCRIBE alternates 301 / 200, every SETUP answers with the other protocol's transport
+			if method == mDescribe {
+				s.ndesc++
+				if s.ndesc%2 == 0 {
+					act = Act{Kind: MStatus, A: 301, B: 0}
+				}
+			}
+			if method == mSetup {
+				var th headers.Transport
+				if th.Unmarshal(req.Header["Transport"]) == nil && th.Protocol == headers.TransportProtocolUDP {
+					act = Act{Kind: MProtoFlip}
+				}
+			}
+		case 3: // OPTIONS is never supported
+			if method == mOptions {
+				act = Act{Kind: MStatus, A: 404}
+			}
 		}
 		s.mu.Unlock()
 
@@ -820,8 +848,12 @@ func (s *server) serve(nc net.Conn) {
 			o = s.respond(req, act)
 		}
 		s.mu.Lock()
-		s.records = append(s.records, reqRecord{Method: method, Events: o.events, Covered: o.covered})
+		rec := reqRecord{Method: method, Events: o.events, Covered: o.covered}
+		s.records = append(s.records, rec)
 		s.mu.Unlock()
+		if s.onRec != nil {
+			s.onRec(rec)
+		}
 
 		if o.delayMs > 0 {
 			time.Sleep(time.Duration(o.delayMs) * time.Millisecond)
